@@ -235,7 +235,7 @@ impl Tab {
             "0" | "1" | "7" | "9" | "-" | "+" => tok.to_string(),
             "L" => self.letter.to_string(),
             "e0" => "%30".into(), "e7" => "%37".into(), "eL" => self.eletter.0.into(), "sp" => "%20".into(),
-            "mb" => self.mb.0.into(), "sl" => hx("%2F"), "pc" => "%25".into(), "ff" => self.ff.into(), "c3" => self.c3.into(),
+            "mb" => self.mb.0.into(), "sl" => hx("%2F"), "pc" => "%25".into(), "ff" => self.ff.into(), "c3" => self.c3.into(), "bz" => "%GG".into(),
             _ => return literal(tok),
         })
     }
@@ -244,7 +244,7 @@ impl Tab {
 fn unchar(c: char) -> &'static str {
     match c {
         '0' => "0", '1' => "1", '2' => "2", '3' => "3", '4' => "4", '5' => "5", '6' => "6", '7' => "7", '8' => "8", '9' => "9",
-        '-' => "-", '+' => "+", ' ' => " ", '/' => "/", '%' => "%", '\u{FFFD}' => "R",
+        '-' => "-", '+' => "+", ' ' => " ", '/' => "/", '%' => "%", 'G' => "G", '\u{FFFD}' => "R",
         c if LETTERS.contains(&c) => "L",
         c if ELETTERS.iter().any(|e| e.1 == c) => "E",
         c if MBS.iter().any(|e| e.1 == c) => "U",
@@ -396,7 +396,7 @@ pub fn run(scn: &Value) -> Value {
     let router = v::finalize(app);
     // ---- request bytes
     let q = s(&rq["q"]);
-    let query = if q == "absent" { None } else { Some(payload("Query", q, &vs, &mut r, false)) };
+    let query = if q == "absent" { None } else if q == "emptyq" { Some(vec![]) } else { Some(payload("Query", q, &vs, &mut r, false)) };
     let (bfmt, bpl) = (s(&rq["body"]["fmt"]), s(&rq["body"]["pl"]));
     let body = if bpl == "empty" { vec![] } else { payload(bfmt, bpl, &vs, &mut r, false) };
     let mut headers: Vec<String> = vec![];
@@ -455,11 +455,11 @@ fn rand_seg(r: &mut Rng, int: bool) -> Vec<&'static str> {
         0 => { for _ in 0..r.range(1, 22) { out.push(*r.pick(&digits)) } }                                         // long digit strings (up to 22 digits)
         1 => { out.push(*r.pick(&["-", "+"])); for _ in 0..r.range(0, 20) { out.push(*r.pick(&digits)) } }          // signed
         2 => { if r.chance(1, 3) { out.push(*r.pick(&["-", "+", "0"])) } out.push(*r.pick(&LITS)); if r.chance(1, 3) { out.push(*r.pick(&["L", "0", "sp", "e0", "7"])) } }
-        3 => { for _ in 0..r.range(1, 6) { out.push(*r.pick(&digits)) } out.push(*r.pick(&["L", "sp", "eL", "-", "+", "mb", "sl", "pc"])); for _ in 0..r.below(3) { out.push(*r.pick(&digits)) } }
+        3 => { for _ in 0..r.range(1, 6) { out.push(*r.pick(&digits)) } out.push(*r.pick(&["L", "sp", "eL", "-", "+", "mb", "sl", "pc", "bz"])); for _ in 0..r.below(3) { out.push(*r.pick(&digits)) } }
         4 => { for _ in 0..r.range(1, 8) { out.push(*r.pick(&["0", "e0", "e7", "7", "1"])) } }                      // escaped digits, leading zeros
         5 => { out.push(*r.pick(&["L", "sp", "eL", "ff", "c3"])); for _ in 0..r.below(4) { out.push(*r.pick(&digits)) } }
         6 => { for _ in 0..r.range(1, 10) { out.push(*r.pick(&["0", "1", "7", "9", "-", "+", "L", "sp", "e0", "e7", "eL"])) } }
-        _ => { for _ in 0..r.range(1, 12) { out.push(*r.pick(&["L", "7", "-", "+", "eL", "sp", "mb", "sl", "pc", "ff", "c3", "L", "L", "mb"])) } }
+        _ => { for _ in 0..r.range(1, 12) { out.push(*r.pick(&["L", "7", "-", "+", "eL", "sp", "mb", "sl", "pc", "ff", "c3", "bz", "L", "L", "mb"])) } }
     }
     out
 }
@@ -481,7 +481,7 @@ pub fn gen(rng: &mut Rng, idx: usize) -> Value {
     }).collect();
     let xs: Vec<&str> = items.iter().map(|it| s(&it["x"])).collect();
     let spl = ["v1", "v2", "extra", "syntax", "wrongtype", "missing"];
-    let q = if xs.contains(&"Query") || rng.chance(1, 4) { if rng.chance(1, 5) { "absent" } else { *rng.pick(&spl) } } else { "absent" };
+    let q = if xs.contains(&"Query") || rng.chance(1, 4) { if rng.chance(1, 5) { *rng.pick(&["absent", "absent", "emptyq"]) } else { *rng.pick(&spl) } } else { "absent" };
     let bodyx: Vec<&str> = xs.iter().copied().filter(|x| matches!(*x, "JSON" | "URLEncoded" | "Multipart" | "Text")).collect();
     let fmts = ["JSON", "URLEncoded", "Multipart", "Text"];
     let mime = if bodyx.is_empty() { if rng.chance(1, 4) { *rng.pick(&fmts) } else { "none" } }
